@@ -1,8 +1,13 @@
-"""C02 - PoSER merging.  Model: coq/Model/M_merge.v; theorems: coq/Properties/C02.v.
+"""C02 - PoSER merging.  Model: coq/Model/M_merge.v, coq/Model/M_poser.v (the class MultiSetup_PoSER and every argument form of
+flatten_sns_names); theorems: coq/Properties/C02.v.
 
 Correspondence: gen.merge_mode_shapes / gen.flatten_sns_names / MultiSetup_PoSER.merge_results against the Gallina
 model (merge_mode_shapes, flatten_multi, poser_stats evaluated at Qc by vm_compute) on inputs that satisfy the
 property's hypothesis (every setup = restriction of one global table times a non-zero real factor per setup and mode).
+The class itself is in the model (poser_class: constructor validation, grouping of the setups' algorithms under the names,
+statistics, ref_ind forwarding): every end-to-end run on stub SingleSetups (2-5 setups, 1-3 algorithms of different stub
+classes) is evaluated in the model as a whole and every field of every algorithm's record is compared.  flatten_sns_names is
+compared with flatten_gen in its table / list-of-lists forms (multi-setup: judged) and its other forms (recorded).
 Oracle: the property text evaluated with NumPy on the implementation's output (merged == c0*G[order], names order ==
 merged rows order, arithmetic mean, population std / mean).
 """
@@ -16,7 +21,7 @@ import numpy as np
 
 from common import VERIF, clist, parse_q, qc, qc_c
 
-HEADER = "From PyOMA.Base Require Import Cplx.\nFrom PyOMA.Model Require Import M_merge."
+HEADER = "From PyOMA.Base Require Import Cplx.\nFrom PyOMA.Model Require Import M_merge M_poser."
 TOL = 1e-9
 
 
@@ -383,6 +388,86 @@ def flatten_expr(names, refs):
     nm = clist([clist(['"%s"' % x for x in row]) for row in names])
     rf = "None" if refs is None else "(Some %s)" % clist([coq_nats(r) for r in refs])
     return 'match flatten_multi %s %s with FlatOk l => join "," l | FlatAttrErr => "AttributeError" end' % (nm, rf)
+
+
+def coq_strs(l):
+    return clist(['"%s"%%string' % x for x in l])
+
+
+def alg_term(cls, run, fn, xi, phi):
+    """one algorithm of one SingleSetup as merge_results reads it: class, has-a-result, result.Fn, result.Xi, result.Phi"""
+    return '(Build_alg_res Qc "%s"%%string %s %s %s %s)' % (cls, "true" if run else "false", clist([qc(float(x)) for x in fn]),
+                                                          clist([qc(float(x)) for x in xi]), coq_cmat(phi) if len(phi) else "[]")
+
+
+def class_expr(names, setups, refs, lo, cnt, show="show_class"):
+    """MultiSetup_PoSER(ref_ind=refs, single_setups=setups, names=names).merge_results() in the model; rows [lo, lo+cnt) of every Phi"""
+    return "%s %d %d (poser_class QcOps %s %s %s)" % (show, lo, cnt, coq_strs(names), clist([clist(su) for su in setups]),
+                                                     clist([coq_nats(r) for r in refs]))
+
+
+def class_setup_terms(algs, nset, cls_names, skip_run=()):
+    """setups x algorithms table of alg_term for generated algorithms (payloads as handed to the stubs)"""
+    out = []
+    for i in range(nset):
+        row = []
+        for a, sub in enumerate(algs):
+            if (i, a) in skip_run:
+                row.append(alg_term(cls_names[a], False, [], [], []))
+            else:
+                _, MS = arrays(sub)
+                row.append(alg_term(cls_names[a], True, sub["Fn"][i], sub["Xi"][i], MS[i]))
+        out.append(row)
+    return out
+
+
+def class_exprs(names, setups, refs, rows, entries):
+    """[(expr, first_row, end_row)]: the whole result in one expression with exact entries; when that string would be long (53-bit
+    mantissas: numerators and denominators of hundreds of digits, see merge_exprs) the entries of the merged shapes are printed
+    as floor(x * 2^100) instead - about 32 digits each - and only then, if still long, in row windows.  entries = numbers in all
+    merged shapes together."""
+    full = class_expr(names, setups, refs, 0, rows)
+    nums = max(1, full.count("(q "))
+    per_number = 20 if len(full) / nums < 22 else 4 * len(full) / nums
+    if nums * per_number <= 15000 or rows <= 1:  # the merged tables hold about as many numbers as the inputs
+        return [(full, 0, rows)]
+    est = entries * 36
+    if est <= 30000:
+        return [(class_expr(names, setups, refs, 0, rows, "show_class_fix"), 0, rows)]
+    step = max(1, int(rows * 30000 / est))
+    return [(class_expr(names, setups, refs, a, min(step, rows - a), "show_class_fix"), a, min(a + step, rows)) for a in range(0, rows, step)]
+
+
+def parse_class(s):
+    """{name: (Fn, Fn_cov2, Xi, Xi_cov2, Phi rows)} from "ok:..." (exact entries) or "fix:..." (entries of Phi as floor(x 2^100))"""
+    fix, s = s.startswith("fix:"), s.split(":", 1)[1]
+    out = {}
+    for part in s.split("#"):
+        nm_, body = part.split("=", 1)
+        f = body.split("|")
+        row = lambda t: np.array([float(parse_q(x)) for x in t.split(" ")]) if t else np.zeros(0)
+        if not f[4]:
+            phi = np.zeros((0, 0))
+        elif fix:
+            phi = np.array([[complex(float(Fraction(int(t.split(",")[0]), 2 ** 100)), float(Fraction(int(t.split(",")[1]), 2 ** 100))) for t in r.split(" ")]
+                            for r in f[4].split(";")])
+        else:
+            phi = parse_cmat(f[4])
+        out[nm_] = (row(f[0]), row(f[1]), row(f[2]), row(f[3]), phi)
+    return out
+
+
+def table_term(rows):
+    return clist([clist(["None" if x is None else '(Some "%s"%%string)' % x for x in r]) for r in rows])
+
+
+def flatgen_expr(arg, refs):
+    """arg = ("table", rows with None for NaN) | ("lists", rows) | ("list", names) | ("array", names)"""
+    form, val = arg
+    a = {"table": lambda: "NTable %s" % table_term(val), "lists": lambda: "NLists %s" % clist([coq_strs(r) for r in val]),
+         "list": lambda: "NList %s" % coq_strs(val), "array": lambda: "NArray %s" % coq_strs(val)}[form]()
+    rf = "None" if refs is None else "(Some %s)" % clist([coq_nats(r) for r in refs])
+    return "show_flat (flatten_gen (%s) %s)" % (a, rf)
 
 
 # ----------------------------------------------------------------------------------------------------------------------
@@ -777,6 +862,19 @@ def shrink_merge(case, key):
     return best if fails(best) else case
 
 
+def balanced_order(sizes, shard):
+    """a permutation of range(len(sizes)) whose consecutive chunks of `shard` carry about the same total size"""
+    n = len(sizes)
+    nsh = max(1, -(-n // shard))
+    cap = [min(shard, n - c * shard) for c in range(nsh)]
+    chunks, load = [[] for _ in range(nsh)], [0] * nsh
+    for i in sorted(range(n), key=lambda i: -sizes[i]):
+        c = min((c for c in range(nsh) if len(chunks[c]) < cap[c]), key=lambda c: load[c])
+        chunks[c].append(i)
+        load[c] += sizes[i]
+    return [i for ch in chunks for i in ch]
+
+
 def load_corpus():
     out = []
     for path in sorted(glob.glob(os.path.join(VERIF, "corpus", "C02", "*.json"))):
@@ -797,13 +895,20 @@ def run(ctx):
         "layouts: 2-5 setups, 1-4 reference sensors at arbitrary positions and listing orders, 0-5 roving sensors per setup, "
         "shuffled global sensor ids, 1-8 modes, real / Gaussian-rational dyadic entries, factors +-2^k(1+j/8) in [0.05,20]; "
         "a case is non-trivial when a setup other than the first has a roving sensor whose factor differs from the first "
-        "setup's for some mode (merge), when there is a roving sensor (names), always for end-to-end runs; distinct by hash of the whole case")
+        "setup's for some mode (merge), when there is a roving sensor (names), always for end-to-end runs; distinct by hash of the whole case; "
+        "class model: every end-to-end case (stub SingleSetups, 1-3 algorithms of different classes, own table / modes / factors / Fn / Xi each) is "
+        "evaluated by poser_class as a whole; tables of names with missing cells inside the rows (multi-row: judged), other argument forms recorded")
     ctx.assumptions += [
         "C02 theorems assume g^T g <> 0 (un-conjugated) on the reference part of every mode: forced by gen.MSF, which does not "
         "conjugate (pinned by test_MSF); inputs with g^T g = 0 are reported as observations, not judged",
         "Fn_cov / Xi_cov are compared with the model through their squares (model cov2 = population variance / mean^2); numpy.sqrt is trusted",
         "end-to-end SSI cases: numpy/scipy eigen-solvers and the SSI identification itself are not part of C02; a case is judged only when "
         "the identified per-setup shapes are re-scaled restrictions of the global shape to 1e-7 (the property's hypothesis)",
+    ]
+    ctx.assumptions += [
+        "C02_class_* theorems ask for distinct names (dictionary keys); names that repeat are run and compared with the model as observations",
+        "model poser_class identifies an algorithm's class with its class name (the stub classes have different names); the constructor's "
+        "validation is recorded against poser_init, judged by C15",
     ]
     exprs, meta = [], []
     classes, StubResult = stub_classes()
@@ -880,6 +985,10 @@ def run(ctx):
                      key="C02:flatten_sns_names:raises-table")
         exprs.append(flatten_expr(names, refs))
         meta.append(("flatten", case, list(got)))
+        exprs.append(flatgen_expr(("table", [list(r) + [None] * (width - len(r)) for r in names]), refs))
+        meta.append(("flatgen-multi", case, "ok:" + ",".join(str(x) for x in got)))
+        exprs.append(flatgen_expr(("lists", names), refs))
+        meta.append(("flatgen-multi", case, "ok:" + ",".join(str(x) for x in got)))
 
     def flatten_case(sensors, refs, tag):
         return dict(kind="flatten", names=[["%s%d" % (tag, sid) for sid in s] for s in sensors], refs=refs, sensors=sensors,
@@ -923,7 +1032,179 @@ def run(ctx):
             tag = dict(case, alg=a)
             for field, text in judge_result(r, sub):
                 ctx.fail("oracle", "merge_results()[name]." + text, tag, key="C02:merge_results:%s" % field)
-            model_result(r, sub, tag, a == 0 or not ctx.quick())  # model evaluation of Phi: first algorithm only in the quick tier (cost)
+        add_class("class", case, case["algs"], case["names"], case["refs"], res)  # the whole class in the model: every algorithm, every field
+
+    # ------------------------------------------------------------------------------------------------ the class in the model
+    CLS = [c.__name__ for c in classes]
+
+    def add_class(kind, case, algs, names, refs_class, res, cls_names=None, skip_run=()):
+        """queue model poser_class on exactly what the SingleSetups were given; res = what merge_results() returned (dict) or
+        the name of the exception the constructor / merge_results raised"""
+        nset = len(case["sensors"])
+        terms = class_setup_terms(algs, nset, cls_names or CLS, skip_run)
+        rows = len(case["refs"][0]) + sum(len(s_) - len(case["refs"][0]) for s_ in case["sensors"])
+        if isinstance(res, str):
+            exprs.append(class_expr(names, terms, refs_class, 0, 0))
+            meta.append((kind, case, dict(raised=res)))
+            return
+        got = {}
+        for nm_, r in res.items():
+            got[nm_] = tuple(np.asarray(x) for x in (r.Fn, r.Fn_cov, r.Xi, r.Xi_cov, r.Phi))
+        tols = {}
+        for a, sub in enumerate(algs):
+            tols.setdefault(names[a], []).append((phi_tol(arrays(sub)[1]), sub.get("fx_dtype") == "float32"))
+        tol = {nm_: (max(t for t, _ in v), any(l for _, l in v)) for nm_, v in tols.items()}
+        entries = 2 * rows * sum(len(sub["G"][0]) for sub in algs)
+        for n, (e, a, b) in enumerate(class_exprs(names, terms, refs_class, rows, entries)):
+            exprs.append(e)
+            meta.append((kind, case, dict(got=got, lo=a, hi=b, first=n == 0, tol=tol)))
+
+    def class_diffs(info, s):
+        """[(site, text)]: where merge_results() and model poser_class differ"""
+        ok = s.startswith("ok:") or s.startswith("fix:")
+        if "raised" in info:
+            return [] if not ok else [("corr-class-error", "model poser_class returns results where the class raises %s" % info["raised"])]
+        if not ok:
+            return [("corr-class-error", "model poser_class returns %s where merge_results() returns results" % s)]
+        model = parse_class(s)
+        got, out = info["got"], []
+        if sorted(model) != sorted(got):
+            return [("corr-class-names", "merge_results() has the keys %s, model poser_class %s" % (sorted(got), sorted(model)))]
+        for nm_ in sorted(got):
+            fn, fc, xi, xc, phi = got[nm_]
+            mfn, mfc2, mxi, mxc2, mphi = model[nm_]
+            ptol, lowp = info["tol"].get(nm_, (TOL, False))
+            a, b = info["lo"], info["hi"]
+            if phi.ndim != 2 or phi.shape[0] < b or mphi.shape != phi[a:b].shape or not close_rel(phi[a:b], mphi, tol=ptol, scale=phi):
+                out.append(("corr-class-Phi", "merge_results()[%s].Phi differs from model poser_class (rows %d..%d)" % (nm_, a, b)))
+            if not info["first"]:
+                continue
+            for what, mean_got, disp_got, mean_m, c2_m in (("Fn", fn, fc, mfn, mfc2), ("Xi", xi, xc, mxi, mxc2)):
+                mean_got, disp_got = np.asarray(mean_got, float), np.asarray(disp_got, float)
+                if lowp:
+                    if not close(mean_got, mean_m, tol=1e-5) or disp_got.shape != c2_m.shape or not bool(np.all(np.abs(disp_got - np.sqrt(c2_m)) <= 1e-5)):
+                        out.append(("corr-class-f32", "merge_results()[%s].%s / %s_cov (float32 storage) differ from model poser_class" % (nm_, what, what)))
+                    continue
+                if not close(mean_got, mean_m):
+                    out.append(("corr-class-mean", "merge_results()[%s].%s differs from model poser_class" % (nm_, what)))
+                if not close(disp_got ** 2, c2_m, floor=0.0, tol=1e-8) and not close(disp_got, np.sqrt(c2_m), floor=0.0):
+                    out.append(("corr-class-cov", "merge_results()[%s].%s_cov^2 differs from model poser_class (population variance / mean^2)" % (nm_, what)))
+        return out
+
+    def run_class(case, algs, names, refs_class, cls_idx=None, skip_run=(), single=False):
+        """the real class on stub setups; returns the result dict or the exception's name.  cls_idx[i][a] = stub class of algorithm a in
+        setup i; skip_run = {(setup, algorithm)} left without a result; single = only the first setup is passed"""
+        from pyoma2.setup import MultiSetup_PoSER, SingleSetup
+        setups = []
+        for i in range(len(case["sensors"])):
+            ss = SingleSetup(np.zeros((8, len(case["sensors"][i]))), fs=16.0)
+            objs = []
+            for a, sub in enumerate(algs):
+                alg = classes[cls_idx[i][a] if cls_idx else a](name="alg%d_of_setup%d" % (a, i), p=a)
+                alg.payload = payload(sub, i)
+                objs.append(alg)
+            ss.add_algorithms(*objs)
+            for a, alg in enumerate(objs):
+                if (i, a) not in skip_run:
+                    alg._set_result(alg.run())
+            setups.append(ss)
+        try:
+            msp = MultiSetup_PoSER(ref_ind=ref_arg(refs_class, case.get("ref_form")), single_setups=setups[:1] if single else setups, names=list(names))
+            return msp.merge_results()
+        except Exception as e:
+            return type(e).__name__
+
+    def same_mode_algs(sensors, refs, nsens, nalg):
+        for _ in range(400):
+            algs = gen_algs(rng, sensors, refs, nsens, nalg, mixed=False)
+            if len({len(sub["G"][0]) for sub in algs}) == 1:
+                return algs
+        raise RuntimeError("no algorithms with equal mode counts drawn")
+
+    def do_dup(case):
+        """names that repeat (outside the property: the theorems ask for distinct names).  The names are dictionary keys: positions with
+        one name fall into one group, setup by setup.  Observed and compared with the model, never judged."""
+        ctx.count(case, nontrivial=True)
+        ctx.hist("dup_names", "%s refs x%d" % (",".join(case["names"]), case["ref_rep"]))
+        algs = [dict(sub, sensors=case["sensors"], refs=case["refs"]) for sub in case["algs"]]
+        refs_class = [r for r in case["refs"] for _ in range(case["ref_rep"])]
+        res = run_class(case, algs, case["names"], refs_class)
+        ctx.hist("dup_names_outcome", res if isinstance(res, str) else "merged %d groups" % len(res))
+        if isinstance(res, str):
+            exprs.append(class_expr(case["names"], class_setup_terms(algs, len(case["sensors"]), CLS), refs_class, 0, 0))
+            meta.append(("class-note", case, dict(raised=res)))
+            return
+        # one group of nset * rep shapes: rows = references + every (setup, algorithm) pair's roving sensors
+        nset, rep = len(case["sensors"]), case["ref_rep"]
+        terms = class_setup_terms(algs, nset, CLS)
+        got = {nm_: tuple(np.asarray(x) for x in (r.Fn, r.Fn_cov, r.Xi, r.Xi_cov, r.Phi)) for nm_, r in res.items()}
+        rows = max(g[4].shape[0] for g in got.values())
+        exprs.append(class_expr(case["names"], terms, refs_class, 0, rows))
+        meta.append(("class-note", case, dict(got=got, lo=0, hi=min(g[4].shape[0] for g in got.values()), first=True, tol={})))
+
+    def gen_dup_case(ok):
+        sensors, refs, nsens = gen_layout(rng, nset=rng.randint(2, 3), max_rov=2)
+        if ok:  # both algorithms under one name, twice as many reference lists: the class merges 2 * nset "setups"
+            return dict(kind="e2e-dup", sensors=sensors, refs=refs, algs=same_mode_algs(sensors, refs, nsens, 2), names=["g", "g"], ref_rep=2)
+        nalg = rng.randint(2, 3)
+        return dict(kind="e2e-dup", sensors=sensors, refs=refs, algs=same_mode_algs(sensors, refs, nsens, nalg),
+                    names=[["g", "g"], ["g", "h", "g"]][nalg - 2], ref_rep=1)
+
+    def do_init(case):
+        """setups the constructor must refuse (validation of _init_setups; its own property is C15): recorded and compared with the
+        model's poser_init, never judged here"""
+        ctx.count(case, nontrivial=False)
+        algs = [dict(sub, sensors=case["sensors"], refs=case["refs"]) for sub in case["algs"]]
+        nset, nalg = len(case["sensors"]), len(algs)
+        v = case["variant"]
+        names, cls_idx, skip, single = list(case["names"]), [[a for a in range(nalg)] for _ in range(nset)], set(), False
+        if v == "one-setup":
+            single = True
+        elif v == "names-short":
+            names = names[:-1]
+        elif v == "names-long":
+            names = names + ["extra"]
+        elif v == "class-order":
+            cls_idx[-1] = cls_idx[-1][::-1]
+        elif v == "not-run":
+            skip = {(nset - 1, nalg - 1)}
+        res = run_class(case, algs, names, case["refs"], cls_idx=cls_idx, skip_run=skip, single=single)
+        ctx.hist("init_variants", "%s: %s" % (v, res if isinstance(res, str) else "accepted"))
+        terms = [[alg_term(CLS[cls_idx[i][a]], (i, a) not in skip, *( ([], [], []) if (i, a) in skip else
+                            (algs[a]["Fn"][i], algs[a]["Xi"][i], arrays(algs[a])[1][i]))) for a in range(nalg)] for i in range(nset)]
+        exprs.append(class_expr(names, terms[:1] if single else terms, case["refs"], 0, 0))
+        meta.append(("class-init", dict(case), res if isinstance(res, str) else "accepted"))
+
+    # ------------------------------------------------------------------------------------------------ flatten_sns_names, other forms
+    def do_flatform(case):
+        """argument forms of flatten_sns_names other than the padded multi-setup ones (one-row table, table without rows, NaN cells
+        inside a row, plain list, 1-D array, rows without names, too few reference lists): compared with model flatten_gen; only the
+        multi-row table is part of the property (oracle: the table reads as its rows without the NaN cells)"""
+        ctx.count(case, nontrivial=case["form"] == "table" and len(case["value"]) > 1)
+        ctx.hist("flatten_forms", case["form"] + (" %d rows" % len(case["value"]) if case["form"] in ("table", "lists") else ""))
+        form, val, refs = case["form"], case["value"], case["refs"]
+        if form == "table":
+            width = max([len(r) for r in val] + [0])
+            arg = pd.DataFrame([[np.nan if x is None else x for x in r] + [np.nan] * (width - len(r)) for r in val]) if val else pd.DataFrame()
+        elif form == "array":
+            arg = np.array(val, dtype=object) if not val else np.array(val)
+        else:
+            arg = [list(r) for r in val] if form == "lists" else list(val)
+        try:
+            got = gen.flatten_sns_names(arg, ref_ind=None if refs is None else [list(r) for r in refs])
+            got = "ok:" + ",".join("nan" if (isinstance(x, float) and x != x) else str(x) for x in got)
+        except Exception as e:
+            got = type(e).__name__
+        if form == "table" and len(val) > 1 and refs is not None and len(refs) >= len(val):
+            try:  # property text: the table is read as its rows, missing cells left out
+                want = "ok:" + ",".join(gen.flatten_sns_names([[x for x in r if x is not None] for r in val], ref_ind=[list(r) for r in refs]))
+            except Exception as e:
+                want = type(e).__name__
+            if got != want:
+                ctx.fail("oracle", "gen.flatten_sns_names: a table of names (NaN = no sensor) is not flattened like the list of its rows: %s instead of %s"
+                         % (got[:80], want[:80]), case, key="C02:flatten_sns_names:table-vs-lists")
+        exprs.append(flatgen_expr((form, val), refs))
+        meta.append(("flatgen", case, got))
 
     # ------------------------------------------------------------------------------------------------ histories on one PoSER object
     def do_hist(case):
@@ -1081,13 +1362,25 @@ def run(ctx):
             do_hist(c)
         elif kind == "ssi":
             do_ssi(c)
+        elif kind == "e2e-dup":
+            do_dup(c)
+        elif kind == "e2e-init":
+            do_init(c)
+        elif kind == "flatform":
+            do_flatform(c)
         else:
             ctx.note("case of unknown kind %r skipped" % kind)
             return False
         return True
 
     def evaluate():
-        res = ctx.coq_eval(HEADER, exprs, shard=ctx.n(40, 120))
+        # every shard in one parallel round, the long expressions dealt evenly over the shards
+        shard = max(ctx.n(40, 120), -(-len(exprs) // 14))
+        order = balanced_order([len(e) for e in exprs], shard)
+        out = ctx.coq_eval(HEADER, [exprs[i] for i in order], shard=shard)
+        res = [None] * len(exprs)
+        for j, i in enumerate(order):
+            res[i] = out[j]
         for (kind, case, got), s in zip(meta, res):
             if kind in ("merge", "e2e-phi"):
                 where = "gen.merge_mode_shapes" if kind == "merge" else "merge_results()[name].Phi"
@@ -1099,6 +1392,26 @@ def run(ctx):
                 M = parse_cmat(s[3:])
                 if got.ndim != 2 or got.shape[0] < b or M.shape != got[a:b].shape or not close_rel(got[a:b], M, tol=tol, scale=got):
                     ctx.fail("correspondence", "%s differs from model merge_mode_shapes" % where, case, key="C02:%s:corr" % kind)
+            elif kind == "class":
+                for site, text in class_diffs(got, s):
+                    ctx.fail("correspondence", text, case, key="C02:merge_results:%s" % site)
+            elif kind == "class-note":
+                for site, text in class_diffs(got, s):
+                    ctx.note("names that repeat (outside the property): %s" % text)
+            elif kind == "class-init":
+                if (s == "InitValueError") != (got != "accepted"):
+                    ctx.note("constructor validation (%s): implementation %s, model %s (judged by C15, not here)" % (case.get("variant"), got, s[:20]))
+            elif kind == "flatgen-multi":
+                if s != got:
+                    ctx.fail("correspondence", "gen.flatten_sns_names (multi-setup form) differs from model flatten_gen: %s / %s" % (got[:60], s[:60]),
+                             dict(case, model=s), key="C02:flatten_sns_names:corr-forms")
+            elif kind == "flatgen":
+                if s != got:
+                    if case["form"] == "table" and len(case["value"]) > 1:
+                        ctx.fail("correspondence", "gen.flatten_sns_names (table form) differs from model flatten_gen: %s / %s" % (got[:60], s[:60]),
+                                 dict(case, model=s), key="C02:flatten_sns_names:corr-table")
+                    else:
+                        ctx.note("flatten_sns_names form %s: implementation %s, model %s (not constrained by the property)" % (case["form"], got[:60], s[:60]))
             elif kind == "malformed":
                 if (s.startswith("ok:")) != (got == "no exception"):
                     ctx.note("mode-count mismatch: implementation %s, model %s (error kinds are not constrained by the property)" % (got, s[:12]))
@@ -1266,6 +1579,32 @@ def run(ctx):
     for _ in range(ctx.n(16, 150)):  # histories on one PoSER object
         ctx.hist("stream", "e2e-history")
         do_hist(gen_hist_case(rng))
+    # the class outside the property's hypothesis: names that repeat, setups the constructor refuses (observations)
+    for j in range(ctx.n(4, 24)):
+        ctx.hist("stream", "e2e-dup-names")
+        do_dup(gen_dup_case(ok=j % 2 == 0))
+    for j, v in enumerate(["one-setup", "names-short", "names-long", "class-order", "not-run"] * ctx.n(1, 4)):
+        ctx.hist("stream", "e2e-init")
+        sensors, refs, nsens = gen_layout(rng, nset=rng.randint(2, 3), max_rov=2)
+        do_init(dict(kind="e2e-init", variant=v, sensors=sensors, refs=refs, algs=gen_algs(rng, sensors, refs, nsens, 2, mixed=False), names=["grp_x", "grp_y"]))
+    # flatten_sns_names: tables with missing cells inside the rows, and the other argument forms
+    for _ in range(ctx.n(12, 120)):
+        sensors, refs, _ = gen_layout(rng, nset=rng.randint(2, 4), max_rov=3)
+        rows = []
+        for s_ in sensors:  # None cells anywhere: the reference positions count the names that are left
+            row = ["t%d" % sid for sid in s_]
+            for _ in range(rng.randint(0, 2)):
+                row.insert(rng.randint(0, len(row)), None)
+            rows.append(row)
+        ctx.hist("stream", "flatten-table")
+        do_flatform(dict(kind="flatform", form="table", value=rows, refs=refs))
+    for form, val, refs in [("table", [["a", "b", None]], None), ("table", [["a", None, "b"]], [[1]]), ("table", [], [[0]]), ("list", ["a", "b"], None),
+                            ("list", [], [[0, 1]]), ("list", [], None), ("list", [], []), ("array", ["a", "b", "c"], None), ("lists", [["a"], []], [[0]]),
+                            ("lists", [["a"], ["b"]], [[0]]), ("lists", [[], []], [[0]]), ("lists", [["a", "b"], ["c"]], []),
+                            ("table", [["a", "b"], ["c", None]], None), ("table", [["a", "b"], [None, None]], [[1]])]:
+        ctx.hist("stream", "flatten-forms")
+        do_flatform(dict(kind="flatform", form=form, value=val, refs=refs))
+
     for j in range(ctx.n(6, 60)):
         case = gen_ssi_case(rng, "SSIcov" if j % 2 == 0 else "SSIdat")
         ctx.hist("stream", "ssi-" + case["alg"])
